@@ -171,6 +171,10 @@ func (s Shape) SourceDeco(pkg string, mode, level int) string {
 					// an unexported field declared together with a column: `N0, hidden0 int32`
 					names = fmt.Sprintf("%s, hidden%d", fn, ctr-1)
 				}
+				if mode == 11 && on {
+					// … with the unexported name first: `hidden0, N0 int32`
+					names = fmt.Sprintf("hidden%d, %s", ctr-1, fn)
+				}
 				fields = append(fields, fmt.Sprintf("\t%s %s%s%s", names, c.Kind.Prefix(), c.elem(), tagFor(mode, fn, ctr)))
 			} else {
 				tn := name + fn
